@@ -293,6 +293,9 @@ RULESETS = [
     ("constants-in-run", [], [("(m a ...)", "(r (q 0 \"s\" #t free a) ...)")]),
     ("vector-in-run", [], [("(m a ...)", "(r #(a ()) ...)")]),
     ("nested-list-in-run", [], [("(m (a b) ...)", "(r ((a) (() b)) ...)")]),
+    # _ matches anything and binds nothing: a _ spelled in the template stays the symbol _
+    ("underscore-in-template", [], [("(m _ a)", "(q _ a)")]),
+    ("underscore-run-in-template", [], [("(m _ ...)", "(got _ and more)")]),
 ]
 USES = ["(1 2 lit)", "(1 2 lit 4)", "(1 lit)", "((1 2) lit)", "(#(1))", "(#())", "((1))", "()", "(1)", "(1 2)", "(1 2 3)", "((1 2))", "((1 2) (3 4))", "((1 2) 3)", "(lit 5)", "(x 5)", "(2 7)", "(#(1 2))", "(#(1 2 3))",
         "((1 (2 3)) 4)", "((1 2 3) 9)", "(1 . 2)", "((1 2 . 3))", '("lit" 5)', "((1 2) (3 4 . 5))"]
